@@ -3,11 +3,12 @@
 //!
 //! [RDF/XML]: https://www.w3.org/TR/rdf-syntax-grammar/
 
-use rio_xml::RdfXmlParser as RioRdfXmlParser;
+use rio_xml::{RdfXmlError, RdfXmlParser as RioRdfXmlParser};
 use sophia_api::parser::TripleParser;
+use sophia_api::source::{Source, StreamError::SourceError, StreamResult};
 use sophia_iri::Iri;
 use sophia_rio::parser::StrictRioTripleSource;
-use std::io::BufRead;
+use std::io::{self, BufRead};
 
 /// N-Triples parser based on RIO.
 #[derive(Clone, Debug, Default)]
@@ -17,7 +18,7 @@ pub struct RdfXmlParser {
 }
 
 impl<B: BufRead> TripleParser<B> for RdfXmlParser {
-    type Source = StrictRioTripleSource<RioRdfXmlParser<B>>;
+    type Source = RdfXmlSource<B>;
     fn parse(&self, data: B) -> Self::Source {
         let base = self
             .base
@@ -25,7 +26,42 @@ impl<B: BufRead> TripleParser<B> for RdfXmlParser {
             .map(Iri::unwrap)
             .map(oxiri::Iri::parse)
             .map(Result::unwrap);
-        StrictRioTripleSource(RioRdfXmlParser::new(data, base))
+        RdfXmlSource(StrictRioTripleSource(RioRdfXmlParser::new(data, base)))
+    }
+}
+
+/// The [`Source`] produced by [`RdfXmlParser`].
+///
+/// It yields the triples of the underlying Rio parser,
+/// after checking that their IRIs are valid absolute IRIs:
+/// Rio does not check the IRIs that it builds from XML names (namespace + local name),
+/// nor those that it could not resolve for lack of a base IRI.
+pub struct RdfXmlSource<B: BufRead>(StrictRioTripleSource<RioRdfXmlParser<B>>);
+
+impl<B: BufRead> Source for RdfXmlSource<B> {
+    type Item<'x> = <StrictRioTripleSource<RioRdfXmlParser<B>> as Source>::Item<'x>;
+
+    type Error = RdfXmlError;
+
+    fn try_for_some_item<EF, F>(&mut self, mut f: F) -> StreamResult<bool, Self::Error, EF>
+    where
+        EF: std::error::Error + Send + Sync + 'static,
+        F: FnMut(Self::Item<'_>) -> Result<(), EF>,
+    {
+        let mut invalid: Option<String> = None;
+        let more = self.0.try_for_some_item(|t| {
+            if invalid.is_none() {
+                invalid = t.invalid_iri().map(String::from);
+            }
+            // NB: nothing is yielded from the invalid triple on; the error is raised below
+            if invalid.is_none() { f(t) } else { Ok(()) }
+        })?;
+        match invalid {
+            None => Ok(more),
+            Some(iri) => Err(SourceError(
+                io::Error::new(io::ErrorKind::InvalidData, format!("invalid IRI <{iri}>")).into(),
+            )),
+        }
     }
 }
 
